@@ -35,12 +35,14 @@ def insts(dump):
     return reg, d
 
 
-def target_of(op):
+def target_of(op, ptrs=None):
     t = op.split()
     if t[0] == "W":
         return int(t[2])
     if t[0] in ("N", "X", "R"):
         return int(t[1])
+    if t[0] == "S" and ptrs is not None:
+        return ptrs.get(int(t[1]))
     return None
 
 
@@ -67,6 +69,7 @@ def analyse0(hist, impl, model, spec):
         return ev, stats
     prev = "R[]"
     links = set()      # pairs of instances joined by an accepted derefSet copy
+    ptrs = {}          # p<pid> -> target instance
     for k, op in enumerate(ops):
         ik, mk, sk = si[k], sm[k], ss[k]
         t = op.split()
@@ -76,15 +79,17 @@ def analyse0(hist, impl, model, spec):
         finding = None
         if t[0] != "D":
             stats["checked"] += 1
-            tgt = target_of(op)
+            tgt = target_of(op, ptrs)
             if io == "P":
                 fail = "a Go panic escaped the interpreter instead of an error being reported"
             elif io == "K":
                 if sk.startswith("E"):
                     fail = "accepted although the specification demands a rejection (%s)" % sk[1:]
-                    if sk == "Enokey" and t[0] == "W" and t[1] in "hj" and t[3][0] in "is":
+                    # a listed finding only when the model of the UNCHANGED code predicts this very step
+                    # (mk == ik): an acceptance the unchanged code does not show is a violation
+                    if sk == "Enokey" and mk == ik and t[0] == "W" and t[1] in "hjkq" and t[3][0] in "is":
                         finding = "nonsymbol-key"
-                    elif sk == "Estale":
+                    elif sk == "Estale" and mk == ik:
                         finding = "instance-type-by-name"
                 elif sk[2:] != idump:
                     fail = "accepted, but the resulting state is not the one the specification allows"
@@ -94,7 +99,7 @@ def analyse0(hist, impl, model, spec):
                     if diff and tgt is not None and all(i != tgt and ((i, tgt) in links or (tgt, i) in links) for i in diff):
                         finding = "clonefrom-aliasing"
                     elif diff and all(i in a and i in b and re.sub(r"^(\d+)/\w+", r"\1/", a[i]) == re.sub(r"^(\d+)/\w+", r"\1/", b[i])
-                                      and re.match(r"\d+/b\d+", b[i]) for i in diff):
+                                      and re.match(r"\d+/b\d+", b[i]) for i in diff) and mk == ik:
                         finding = "late-adoption"
             elif io == "E":
                 if idump != prev:
@@ -103,7 +108,7 @@ def analyse0(hist, impl, model, spec):
                     _, b = insts(prev)
                     diff = [i for i in set(a) | set(b) if a.get(i) != b.get(i)]
                     if diff and all(i in a and i in b and re.sub(r"^(\d+)/\w+", r"\1/", a[i]) == re.sub(r"^(\d+)/\w+", r"\1/", b[i])
-                                    and re.match(r"\d+/b\d+", b[i]) for i in diff):
+                                    and re.match(r"\d+/b\d+", b[i]) for i in diff) and mk == ik:
                         finding = "late-adoption"
             else:
                 fail = "step budget exhausted"
@@ -115,6 +120,10 @@ def analyse0(hist, impl, model, spec):
             break          # later steps start from different states
         if t[0] == "R" and io == "K" and t[2].startswith("@"):
             links.add((int(t[1]), int(t[2][1:])))
+        if t[0] == "P" and io == "K":
+            ptrs[int(t[1])] = int(t[2])
+        if t[0] == "S" and io == "K" and t[2].startswith("@") and int(t[1]) in ptrs:
+            links.add((ptrs[int(t[1])], int(t[2][1:])))
         prev = idump
     return ev, stats
 
